@@ -43,6 +43,24 @@ INFO = {
  "C19-b": ("urcu-bp register: the 'already registered by a handler' re-check returns without restoring the signal mask", "bp, handler that takes the read lock landing inside the thread's first rcu_read_lock() before signals are blocked"),
  "C20-a": ("x86 uatomic_xchg skips the instruction when the value is unchanged (no barrier on that path)", "store-buffer litmus whose xchg stores the value already present"),
  "C20-b": ("generic uatomic_sub_return negates the operand before widening it", "8-byte target with an unsigned int operand"),
+ "C01-c": ("synchronize_rcu() (memb): the first smp_mb_master() weakened to a local cmm_smp_mb()", "memb with sys_membarrier; a reader's counter store still in its store buffer at the instant of the first scan (x86-TSO only)"),
+ "C01-d": ("urcu-qsbr synchronize_rcu(): the gp_end label moved after the 'go back online' epilogue: a merged waiter that was online returns offline", "qsbr, >=3 overlapping callers so that one is a true follower, which then reads inside its implicit section while another updater reclaims"),
+ "C02-c": ("urcu-qsbr wait_for_readers(): cmm_smp_mb() after 'futex = -1 / waiting = 1' weakened to a write barrier (updater-side store-buffering lost wake-up)", "x86-TSO; the reader announces its quiescent state while the updater's two stores are still buffered"),
+ "C02-d": ("futex_noasync() falls back on the blocking compat implementation on ENOSYS", "ENOSYS on a FUTEX_WAIT but not on the matching FUTEX_WAKE (the documented spurious case)"),
+ "C03-c": ("wfcq splice: source tail reset by load+store instead of xchg (as used by the call_rcu helper to grab its queue)", "a call_rcu() enqueue landing inside the two-instruction window of the helper's splice"),
+ "C03-d": ("_call_rcu_data_free(): after handing leftovers to the default helper the wake-up goes to the stopped helper instead", "helper freed with callbacks still queued while the default helper is asleep and nothing else is enqueued on it"),
+ "C05-c": ("_cds_lfht_del(): REMOVED flag set with a plain store of the previously loaded next pointer instead of an atomic or", "an add linking a node right behind the node being deleted between the deleter's load and store"),
+ "C05-d": ("_cds_lfht_replace(): new_node->next assigned once before the cmpxchg retry loop", "the cmpxchg on old->next failing once because a neighbour was inserted"),
+ "C10-c": ("wfcq dequeue of the last node: head->next reset to NULL moved after the successful tail cmpxchg", "an enqueue doing both its tail exchange and its link store between the dequeuer's cmpxchg and the late store"),
+ "C10-d": ("wfcq non-blocking dequeue: the WOULDBLOCK path after a failed tail cmpxchg no longer restores head->next", "single linked node, enqueuer suspended between tail exchange and link store, non-blocking dequeue"),
+ "C11-c": ("wfstack pop: head cmpxchg replaced by compare-then-store", "a push's exchange landing between the popper's re-read and its store"),
+ "C11-d": ("lfstack push: 'was non-empty' result derived from 'some cmpxchg attempt failed'", "cmpxchg failing twice with the stack emptied in between"),
+ "C12-c": ("lfq enqueue: tail advance by compare-then-plain-store", "enqueuer delayed between the compare and the store while the tail moves on and the node is dequeued and recycled"),
+ "C12-d": ("lfq dequeue slow path uses the dummy it just enqueued as head->next", "an enqueue landing between the dequeuer's read of head->next == NULL and the dummy's link"),
+ "C14-c": ("call_rcu worker: 'futex = -1' re-armed with a plain release store and no barrier before re-reading the queue", "x86-TSO; a call_rcu()/start_poll enqueue while the worker's store is buffered and it has just seen the queue empty"),
+ "C14-d": ("same change as C03-d (wake-up sent to the stopped helper), reached through the polling worker callback", "per-thread helper freed after two handles were taken, default helper asleep"),
+ "C18-c": ("cds_list_replace_rcu(): node published before its next pointer is set", "reader on the predecessor between the two stores"),
+ "C18-d": ("cds_hlist_entry_safe() evaluates its pointer argument twice (two rcu_dereference loads in the _2 iterator)", "tail node removed between the two loads"),
 }
 rows = []
 for d in sorted(glob.glob(os.path.join(V, "seeded", "C??-?"))):
